@@ -563,6 +563,23 @@ Variable *StructOperations::get_struct_member(const std::string &var_name,
 
             if (array_var && array_var->is_array && array_var->is_struct &&
                 !array_var->struct_type_name.empty()) {
+                // people[i]: i has to lie inside the array before the
+                // element is created
+                size_t close_pos = var_name.find(']', bracket_pos);
+                if (close_pos != std::string::npos) {
+                    bool has_index = true;
+                    int64_t element_index = 0;
+                    try {
+                        element_index = std::stoll(var_name.substr(
+                            bracket_pos + 1, close_pos - bracket_pos - 1));
+                    } catch (const std::exception &) {
+                        has_index = false;
+                    }
+                    if (has_index) {
+                        interpreter_->ensure_array_index_in_bounds(
+                            *array_var, element_index);
+                    }
+                }
                 // 親配列が存在する場合、要素変数を作成
                 {
                     char dbg_buf[512];
